@@ -7,6 +7,7 @@
 #include <memory>
 
 #include "libphysica/Numerics.hpp"
+#include "libphysica/Special_Functions.hpp"
 
 using namespace libphysica;
 
@@ -36,6 +37,8 @@ struct Fn
 			return std::pow(x, (double) ip) - c;
 		if(kind == "sat")	// (x-s)/(1+|x-s|) - c
 			return (x - s) / (1.0 + std::fabs(x - s)) - c;
+		if(kind == "plat")	 // 1/(1+x^2)^k - d : tiny same-sign plateaus far from the root
+			return std::pow(1.0 / (1.0 + x * x), (double) ip) - c;
 		if(kind == "nanle")
 			return x <= t ? NAN : (*inner)(x);
 		if(kind == "nange")
@@ -53,6 +56,8 @@ struct Fn
 			return std::exp(w * (x - s)) - c;
 		if(kind == "logx")	 // log(x/s)*w - c
 			return w * std::log(x / s) - c;
+		if(kind == "gauss")	  // exp(-w*(x-s)^2) - c
+			return std::exp(-w * (x - s) * (x - s)) - c;
 		if(kind == "cosx")	 // cos(w*(x-s)) - c : several roots
 			return std::cos(w * (x - s)) - c;
 		throw BadArgs("fn kind " + kind);
@@ -70,7 +75,7 @@ static Fn parse_fn(Args& a)
 		f.p = a.dbls();
 		f.q = a.dbls();
 	}
-	else if(f.kind == "powc")
+	else if(f.kind == "powc" || f.kind == "plat")
 	{
 		f.ip = a.i64();
 		f.c	 = a.dbl();
@@ -123,6 +128,12 @@ std::string handle(const std::string& op, Args& a)
 {
 	if(op == "c02.root" || op == "c02.fam")
 		return do_root(a);
+	if(op == "c02.sign")   // the two-argument Sign used by the re-bracketing tests
+	{
+		double x = a.dbl(), y = a.dbl();
+		a.end();
+		return run([&](Out& o) { o << Sign(x, y); });
+	}
 	throw BadOp();
 }
 }	// namespace hz
